@@ -21,7 +21,11 @@ type vclock struct {
 	ns int64
 }
 
-func newVClock() *vclock                          { return &vclock{Clock: clock.NewMock()} }
+// clockBase is where virtual time starts: deliberately not on a whole second (nor millisecond), so that
+// deadlines computed from it are not invariant under rounding or truncation.
+const clockBase = int64(1700000000387654321)
+
+func newVClock() *vclock                          { return &vclock{Clock: clock.NewMock(), ns: clockBase} }
 func (c *vclock) Now() time.Time                  { return time.Unix(0, atomic.LoadInt64(&c.ns)) }
 func (c *vclock) advance(d int64)                 { atomic.AddInt64(&c.ns, d) }
 func (c *vclock) Since(t time.Time) time.Duration { return c.Now().Sub(t) }
@@ -209,6 +213,7 @@ type seqRun struct {
 func newSeqRun(p params, st *stats, pool *callerPool) *seqRun {
 	x := &seqRun{p: p, clk: newVClock(), sig: make(chan sigMsg), st: st, pool: pool}
 	x.r.trip, x.r.reset, x.r.cap = int32(p.Trip), int32(p.Reset), int32(p.Cap)
+	x.r.now = clockBase
 	x.b = circuit.NewBreaker(&circuit.Options{
 		HalfOpenConcurrentRequests: p.Cap,
 		ShouldTripFunc:             func(c circuit.Counts) bool { return c.ConsecutiveFailures >= p.Trip },
@@ -432,17 +437,17 @@ func (x *seqRun) apply(ev event) *viol {
 		}
 	case 'A':
 		st.c[cAdvance]++
-		d := int64(3 * time.Second)
+		d := int64(3*time.Second + 7*time.Millisecond)
 		if x.r.pending() {
-			d = x.r.deadline - x.r.now + int64(time.Second)
+			d = x.r.deadline - x.r.now + 1 // one nanosecond past the deadline
 		}
 		x.clk.advance(d)
 		x.r.now += d
 	case 'a':
 		st.c[cAdvanceShort]++
-		d := int64(time.Second)
+		d := int64(time.Second + 3*time.Millisecond)
 		if x.r.pending() {
-			d = (x.r.deadline - x.r.now) / 2
+			d = x.r.deadline - x.r.now - 1 // one nanosecond short of the deadline
 		}
 		x.clk.advance(d)
 		x.r.now += d
@@ -580,15 +585,15 @@ func applyRef(s *seqRef, ev event) {
 		}
 	case 'A':
 		if s.pending() {
-			s.now = s.deadline + int64(time.Second)
+			s.now = s.deadline + 1
 		} else {
-			s.now += int64(3 * time.Second)
+			s.now += int64(3*time.Second + 7*time.Millisecond)
 		}
 	case 'a':
 		if s.pending() {
-			s.now += (s.deadline - s.now) / 2
+			s.now = s.deadline - 1
 		} else {
-			s.now += int64(time.Second)
+			s.now += int64(time.Second + 3*time.Millisecond)
 		}
 		s.shortDone = true
 	}
